@@ -665,6 +665,27 @@ theorem uniqueNames_step (s : Step) (r r' : Raw) (h : UniqueNames r.eattrs) (hs 
   case computeDim => cases hs; exact h
   case setPrepared => cases hs; exact h
 
+/-! ### `from_arrays` after the vertex stage -/
+
+theorem bind_ok {α β : Type} (x : α) (k : α → Except String β) : Except.bind (.ok x) k = k x := rfl
+theorem bind_error {α β : Type} (e : String) (k : α → Except String β) : Except.bind (.error e) k = .error e := rfl
+theorem bind_ite' {α β : Type} (c : Prop) [Decidable c] (e : String) (y : Except String α) (k : α → Except String β) :
+    Except.bind (if c then .error e else y) k = if c then .error e else Except.bind y k := by
+  split <;> rfl
+
+/-- the end of `from_arrays`: raw data returned, or handed to `_instanciate_raw_mesh_data` -/
+def finishArrays (cfg : Cfg) (raw : Bool) (m : Raw) : Except String (Raw ⊕ Built) :=
+  if raw then .ok (.inl m) else Except.bind (instantiate cfg m none) fun b => .ok (.inr b)
+
+/-- `from_arrays` once the vertex array `V'` has its 3 columns (normal form): the three element arrays, absent = empty, each
+checked against `n = len(V')`, then stored, then `finishArrays` -/
+def fromArraysTail (cfg : Cfg) (V' : List (List Rat)) (E : Option (List (Int × Int))) (F C : Option (List (List Nat)))
+    (raw : Bool) : Except String (Raw ⊕ Built) :=
+  if anyEdgeGE (E.getD []) V'.length then .error "err:Other(Exception)"
+  else if anyRowGE (F.getD []) V'.length then .error "err:Other(Exception)"
+  else if anyRowGE (C.getD []) V'.length then .error "err:Other(Exception)"
+  else finishArrays cfg raw { verts := V', edges := E.getD [], faces := F.getD [], cells := C.getD [] }
+
 /-! ### the file route: what a reader hands over, as input of `prepare` -/
 
 /-- the `RawMeshData` a file reader returns (the record type of C04's reader models and of its TRANSLATED readers
